@@ -467,6 +467,8 @@ class Syntax(JupyterMixin):
     def __rich_measure__(self, console: "Console", max_width: int) -> "Measurement":
         if self.code_width is not None:
             width = self.code_width + self._numbers_column_width
+            if self.line_numbers:
+                width += 1  # the blank between the line number and the code
             return Measurement(self._numbers_column_width, width)
         return Measurement(self._numbers_column_width, max_width)
 
